@@ -42,16 +42,9 @@ M = [
      "                    while self._current_memory > self.assignment.ram:\n", "                    while self._current_memory >= self.assignment.ram:\n"),
     ("C04-no_reconcile_drift", "eudoxia/executor/container.py",
      "        self.pool.consumed_ram_gb += delta\n", "        self.pool.consumed_ram_gb += delta * (1 + 1e-7)\n"),
-    ("C04-report_allocated_when_suspending", "eudoxia/executor/resource_pool.py",
-     "        self.consumed_ram_gb = sum(c.get_current_memory_usage() for c in self.active_containers)\n",
-     "        self.consumed_ram_gb = sum(c.get_current_memory_usage() for c in self.active_containers + self.suspending_containers)\n"),
     # ---- C05
     ("C05-cpu_ticks_round", "eudoxia/executor/container.py",
      "                cpu_ticks = int(cpu_secs / self.tick_length_secs)\n", "                cpu_ticks = round(cpu_secs / self.tick_length_secs)\n"),
-    ("C05-linear7_boundary", "eudoxia/workload/pipeline.py",
-     "        if num_cpus < 7:\n", "        if num_cpus <= 7:\n"),
-    ("C05-exp_boundary", "eudoxia/workload/pipeline.py",
-     "        if num_cpus < 4:\n", "        if num_cpus <= 4:\n"),
     ("C05-sqrt_cuberoot", "eudoxia/workload/pipeline.py",
      "        scaling_factor = np.sqrt(num_cpus)\n", "        scaling_factor = np.cbrt(num_cpus)\n"),
     ("C05-mem_grows_in_cpu_phase", "eudoxia/executor/container.py",
@@ -99,9 +92,13 @@ M = [
      "                    self._can_suspend = False\n                    if seg_idx == last_seg_idx", "                    self._can_suspend = self._can_suspend and total_seg_ticks == 1\n                    if seg_idx == last_seg_idx"),
     ("C10-duration_from_used_memory", "eudoxia/executor/container.py",
      "        write_to_disk_secs = self.assignment.ram / DISK_SCAN_GB_SEC\n", "        write_to_disk_secs = max(self._current_memory, self.assignment.ram / 2) / DISK_SCAN_GB_SEC\n"),
-    ("C10-prefix_reset", "eudoxia/executor/container.py",
-     "            for op in self.operators[self._current_op_idx:]:\n                op.transition(OperatorState.PENDING)\n",
-     "            for op in self.operators[self._current_op_idx:]:\n                op.transition(OperatorState.PENDING)\n            if len(self.operators) > 3:\n                self._current_op_idx = 0\n"),
+    ("C10-writeout_never_counts_request_tick", "eudoxia/executor/resource_pool.py",
+     "        to_remove = []\n        for c in self.suspending_containers:\n            c.suspend_container_tick()\n",
+     "        to_remove = []\n        for c in self.suspending_containers:\n            if c.suspend_ticks == c._suspend_ticks_left and c.suspend_ticks > 2 and len(suspensions) > 0:\n                continue\n            c.suspend_container_tick()\n"),
+    ("C05-linear3_boundary", "eudoxia/workload/pipeline.py",
+     "        if num_cpus < 3:\n", "        if num_cpus < 4:\n"),
+    ("C17-fifo_newest_first", "eudoxia/scheduler/naive.py",
+     "    for p in pipelines:\n        s.waiting_queue.append(p)\n", "    for p in pipelines:\n        s.waiting_queue.insert(0 if len(s.waiting_queue) > 2 else len(s.waiting_queue), p)\n"),
     # ---- C11
     ("C11-score_ratio", "eudoxia/executor/resource_pool.py",
      "            score = consumption_gb * consumption_percent\n", "            score = consumption_percent\n"),
@@ -113,7 +110,8 @@ M = [
     ("C12-queue_order_swapped", "eudoxia/scheduler/priority.py",
      "    queues = [s.qry_jobs, s.interactive_jobs, s.batch_ppln_jobs]\n", "    queues = [s.qry_jobs, s.batch_ppln_jobs, s.interactive_jobs]\n"),
     ("C12-suspend_for_interactive", "eudoxia/scheduler/priority.py",
-     "    if len(s.qry_jobs) > 0:\n", "    if len(s.qry_jobs) + len(s.interactive_jobs) > 0:\n"),
+     "    if len(s.qry_jobs) > 0:\n        # If there are jobs in high priority queues then check\n        # if any containers are preemptible and make a command to suspend\n        # them. When the resources are free, the first part of this\n        # scheduling algorithm will assign them to appropriate jobs\n        num_to_suspend = len(s.qry_jobs)\n",
+     "    if len(s.qry_jobs) + len(s.interactive_jobs) > 0:\n        num_to_suspend = len(s.qry_jobs) + len(s.interactive_jobs)\n"),
     ("C12-twice_as_many", "eudoxia/scheduler/priority.py",
      "        num_to_suspend = len(s.qry_jobs)\n", "        num_to_suspend = len(s.qry_jobs) + (1 if s.executor.num_pools > 1 else 0)\n"),
     # ---- C13
@@ -134,8 +132,6 @@ M = [
     # ---- C15
     ("C15-batch_short", "eudoxia/workload/workload.py",
      "        for _ in range(self.num_pipelines):\n", "        for _ in range(self.num_pipelines - (1 if self.num_pipelines > 5 else 0)):\n"),
-    ("C15-gap_fallback_doubled", "eudoxia/workload/workload.py",
-     "                next_wait = self.waiting_ticks_mean\n", "                next_wait = 2 * self.waiting_ticks_mean\n"),
     ("C15-query_two_ops", "eudoxia/workload/workload.py",
      "                seg = self.generate_query_segment()\n                op.add_segment(seg)\n",
      "                seg = self.generate_query_segment()\n                op.add_segment(seg)\n                if self.pipeline_counter % 97 == 0:\n                    p.new_operator([op]).add_segment(self.generate_query_segment())\n"),
@@ -153,8 +149,6 @@ M = [
      "            if pipeline.runtime_status().is_pipeline_successful() or has_failures:\n", "            if pipeline.runtime_status().is_pipeline_successful() or (has_failures and len(pipeline.values) < 4):\n"),
     ("C17-half_ram", "eudoxia/scheduler/naive.py",
      "            assignment = Assignment(ops=op_list, cpu=avail_cpu_pool, ram=avail_ram_pool,\n", "            assignment = Assignment(ops=op_list, cpu=avail_cpu_pool, ram=avail_ram_pool if pool_id == 0 else avail_ram_pool / 2,\n"),
-    ("C17-capacity_from_max", "eudoxia/scheduler/naive.py",
-     "        avail_cpu_pool = s.executor.pools[pool_id].avail_cpu_pool\n", "        avail_cpu_pool = s.executor.pools[pool_id].avail_cpu_pool if s.executor.pools[pool_id].active_containers else s.executor.pools[pool_id].max_cpu_pool\n"),
     # ---- C18
     ("C18-ram_from_free", "eudoxia/scheduler/overbook.py",
      "                ram=pool.max_ram_pool,\n", "                ram=pool.max_ram_pool if pool.avail_ram_pool <= 0 else max(pool.avail_ram_pool, pool.max_ram_pool / 2),\n"),
@@ -180,7 +174,7 @@ M = [
     ("C20-jitter_drops_extra_columns", "eudoxia/tools.py",
      "        fieldnames = reader.fieldnames\n\n        pipelines = []", "        fieldnames = reader.fieldnames[:9]\n\n        pipelines = []"),
     ("C20-snap_round", "eudoxia/tools.py",
-     "                snapped = math.floor(ticks + 1e-9 * max(1.0, abs(ticks))) / ticks_per_second\n", "                snapped = math.floor(ticks + 0.02) / ticks_per_second\n"),
+     "                snapped = math.floor(ticks + 16 * math.ulp(ticks)) / ticks_per_second\n", "                snapped = math.floor(ticks + 0.02) / ticks_per_second\n"),
     ("C20-sample_seed_offset", "eudoxia/tools.py",
      "        seed = start_seed + i\n", "        seed = start_seed + i // 2 * 2\n"),
 ]
